@@ -4,12 +4,14 @@ package main
 
 import (
 	"fmt"
+	"hash/fnv"
 	"os"
 	"os/exec"
 	"path/filepath"
 	"regexp"
 	"strconv"
 	"strings"
+	"time"
 
 	"github.com/els0r/goProbe/v4/pkg/goDB/encoder/encoders"
 	"github.com/els0r/goProbe/v4/pkg/goDB/storage/gpfile"
@@ -34,6 +36,14 @@ func init() {
 		}
 		_, _ = os.Stat("/verif-marker-end")
 		fmt.Println(st)
+		return 0
+	}
+	children["writeouts-slow"] = func(a []string) int {
+		for _, s := range splitSemi(a[1]) {
+			w := parseWriteOut(s)
+			time.Sleep(15 * time.Millisecond)
+			_ = writeOut(a[0], w.Iface, w.TS, w.Drops, w.Flows, encoders.EncoderTypeLZ4)
+		}
 		return 0
 	}
 	children["readday"] = func(a []string) int {
@@ -80,20 +90,46 @@ func c30ReadDay(ifacePath string, day int64) string {
 	var out []string
 	for b, blk := range blocks {
 		ok := true
+		// as the query does: the slices of all columns of a block are held until the block is evaluated
+		var held [types.ColIdxCount][]byte
 		for c := types.ColumnIndex(0); c < types.ColIdxCount; c++ {
-			if _, err := d.ReadBlockAtIndex(c, b); err != nil {
+			data, err := d.ReadBlockAtIndex(c, b)
+			if err != nil {
 				ok = false
 				break
 			}
+			held[c] = data
 		}
 		if ok {
-			out = append(out, strconv.FormatInt(blk.Timestamp, 10))
+			h := fnv.New64a()
+			for c := range held {
+				_, _ = h.Write([]byte{byte(c), byte(len(held[c])), byte(len(held[c]) >> 8)})
+				_, _ = h.Write(held[c])
+			}
+			out = append(out, fmt.Sprintf("%d#%x", blk.Timestamp, h.Sum64()))
 		} else {
 			out = append(out, "ERR")
 		}
 	}
 	_ = d.Close()
 	return listField(out)
+}
+
+// c30SplitDigests separates the block timestamps from the content digests of a readday result
+func c30SplitDigests(res string) (string, map[string]string) {
+	if strings.HasPrefix(res, "err") || res == "absent" || res == "" {
+		return res, nil
+	}
+	dig := map[string]string{}
+	var ts []string
+	for _, e := range splitList(res) {
+		if i := strings.IndexByte(e, '#'); i >= 0 {
+			dig[e[:i]] = e[i+1:]
+			e = e[:i]
+		}
+		ts = append(ts, e)
+	}
+	return listField(ts), dig
 }
 
 func c30YearMonth(day int64) (string, string) {
@@ -164,7 +200,100 @@ func readerOps(trace string) []string {
 	return ops
 }
 
+// c30Free: the real query engine and ReadMetadata run in a loop while a writer process performs the
+// remaining write-outs at full speed (no scheduler): every answer must be that of a committed state.
+func c30Free(f []string) string {
+	var ws []WriteOut
+	for _, s := range splitSemi(f[1]) {
+		ws = append(ws, parseWriteOut(s))
+	}
+	k0, _ := strconv.Atoi(f[2])
+	work, err := os.MkdirTemp("", "verif-c30f-")
+	if err != nil {
+		panic(err)
+	}
+	defer os.RemoveAll(work)
+	db := filepath.Join(work, "db")
+	_ = os.MkdirAll(db, 0o755)
+	for _, w := range ws[:k0] {
+		if err := writeOut(db, w.Iface, w.TS, w.Drops, w.Flows, encoders.EncoderTypeLZ4); err != nil {
+			return "free=violates:setup"
+		}
+	}
+	first, last := c04Range(ws)
+	allowedQ, allowedL := map[string]bool{}, map[string]bool{}
+	// expected answers for every committed prefix, computed on scratch databases through the same code
+	for j := k0; j <= len(ws); j++ {
+		ref := filepath.Join(work, fmt.Sprintf("ref%d", j))
+		_ = os.MkdirAll(ref, 0o755)
+		for _, w := range ws[:j] {
+			_ = writeOut(ref, w.Iface, w.TS, w.Drops, w.Flows, encoders.EncoderTypeLZ4)
+		}
+		allowedQ[queryRows(ref, "any", first, last, "")] = true
+		allowedL[c30DropZero(listSummary(ref, first, last))] = true
+		_ = os.RemoveAll(ref)
+	}
+	var rest []string
+	for _, w := range ws[k0:] {
+		rest = append(rest, w.String())
+	}
+	cmd := exec.Command(os.Args[0], "__child", "writeouts-slow", db, semiField(rest))
+	cmd.Env = append(os.Environ(), "TZ=UTC")
+	if err := cmd.Start(); err != nil {
+		return "free=violates:writer-start"
+	}
+	done := make(chan struct{})
+	go func() { _ = cmd.Wait(); close(done) }()
+	n := 0
+	for {
+		q := queryRows(db, "any", first, last, "")
+		l := c30DropZero(listSummary(db, first, last))
+		n++
+		if k0 == 0 && (q == "err:iface" || strings.HasPrefix(q, "rows=-")) {
+			// empty database: nothing to answer yet
+		} else if !allowedQ[q] {
+			<-done
+			if os.Getenv("VERIF_DEBUG") != "" {
+				fmt.Fprintf(os.Stderr, "observed: %s\nallowed:\n", q)
+				for a := range allowedQ {
+					fmt.Fprintf(os.Stderr, "  %s\n", a)
+				}
+			}
+			return "free=violates:query-not-a-committed-state:" + esc(q[:min(len(q), 60)])
+		}
+		if !allowedL[l] && !(k0 == 0 && (l == "-" || strings.HasSuffix(l, "/0:0:0:0:0:0:0"))) {
+			<-done
+			return "free=violates:listing-not-a-committed-state:" + esc(l[:min(len(l), 60)])
+		}
+		select {
+		case <-done:
+			if q2 := queryRows(db, "any", first, last, ""); !allowedQ[q2] {
+				return "free=violates:final-query"
+			}
+			if n < 3 {
+				return "free=ok" // (too fast to overlap much; still a valid run)
+			}
+			return "free=ok"
+		default:
+		}
+	}
+}
+
+// an interface directory that exists but holds no committed data is listed with zero totals: same as absent
+func c30DropZero(l string) string {
+	var keep []string
+	for _, e := range splitSemi(l) {
+		if !strings.HasSuffix(e, "/0:0:0:0:0:0:0") {
+			keep = append(keep, e)
+		}
+	}
+	return semiField(keep)
+}
+
 func c30Run(f []string) string {
+	if f[0] == "free" {
+		return c30Free(f)
+	}
 	var ws []WriteOut
 	for _, s := range splitSemi(f[0]) {
 		ws = append(ws, parseWriteOut(s))
@@ -234,7 +363,16 @@ func c30Run(f []string) string {
 	if res == "" {
 		res = "err:no-output"
 	}
-	return "rops=" + listField(readerOps(rp.trace)) + " res=" + res
+	res, dig := c30SplitDigests(res)
+	// what the reader held for each block must be what the block contains (read again, nothing running)
+	_, ref := c30SplitDigests(c30ReadDay(filepath.Join(db, target.Iface), day))
+	data := "ok"
+	for ts, h := range dig {
+		if ref[ts] != h {
+			data = "corrupt"
+		}
+	}
+	return "rops=" + listField(readerOps(rp.trace)) + " res=" + res + " data=" + data
 }
 
 func c30Gen(r *Rand, tier string) []Case {
@@ -271,6 +409,21 @@ func c30Gen(r *Rand, tier string) []Case {
 			}
 			cs = append(cs, Case{Line: fmt.Sprintf("C30 %s %d %s", hist, k0, b.String()), Class: fmt.Sprintf("k0=%d,more=%d", k0, more), NonTrivial: true})
 		}
+	}
+	// free-running overlap of the real engine with a writer process (no scheduler), judged against the set
+	// of committed states
+	nfree := 6
+	if tier == "thorough" {
+		nfree = 200
+	}
+	for i := 0; i < nfree; i++ {
+		k0 := r.Intn(3)
+		more := 4 + r.Intn(12)
+		var hs []string
+		for j := 0; j < k0+more; j++ {
+			hs = append(hs, WriteOut{Iface: Pick(r, []string{"eth0", "eth0", "eth1"}), TS: day + int64(j+1)*300, Drops: uint64(r.Intn(3)), Flows: genFlows(r, 1+r.Intn(3))}.String())
+		}
+		cs = append(cs, Case{Line: fmt.Sprintf("C30 free %s %d", semiField(hs), k0), Class: "free-running", NonTrivial: true})
 	}
 	return cs
 }
